@@ -70,6 +70,9 @@ fn pair_tree<T: Scalar>(kind: Kind, n: usize, alpha: &[f64], depth: usize, relab
         a: Dyn<T>,
         b: Dyn<T>,
     }
+    if build_or_report::<T>("C06", &spec, sink).is_none() {
+        return;
+    }
     let root = S { a: build::<T>(&spec), b: build::<T>(&spec) };
     st.configs += 1;
     // Z5 = (0, 1, -1, -2, 3) -> strictly increasing relabelling of (-2,-1,0,1,3) to (-10,-1,0,0.5,100)
